@@ -37,7 +37,7 @@ ObsUtxo(st) == {[o |-> x.o, owner |-> x.owner, amt |-> LimbNorm(T3(x.amt)), bh |
                  : x \in {y \in Rng(st.utxo) : y.sp}}
 
 (* edits of a block that keep its signed header: the transaction list or the signature is changed *)
-C06Edits == {"drop_last_tx", "dup_first_tx", "swap_txs", "tamper_tx_data", "zero_root_drop_tx", "resign_other_key",
+C06Edits == {"drop_last_tx", "dup_first_tx", "swap_txs", "tamper_tx_data", "zero_root_drop_tx", "resign_other_key", "append_uncounted_tx",
              "bump_timestamp_nosign", "drop_all_txs", "flip_block_sig"}
 
 NoSample == [bf |-> <<0, 0, 0>>, hb |-> <<0, 0, 0>>, dt |-> <<4194303, 0, 0>>, needed |-> <<0, 0, 0>>]
